@@ -20,6 +20,11 @@ Strided(S, m) == LET q == SetToSeq(S) IN { q[i] : i \in { j \in DOMAIN q : j % m
 ShapeCases == UNION { { [shape |-> sh, descs |-> << <<a>>, <<b>> >>, orders |-> << <<1, 2>>, <<2, 1>> >>] : a \in LastAdds(sh), b \in Strided(AddsOf(sh), IF Tier = "quick" THEN 29 ELSE 5) }
                       \cup { [shape |-> sh, descs |-> << <<a>>, << >> >>, orders |-> << <<1, 2>>, <<2, 1>> >>] : a \in AddsOf(sh) }
                       : sh \in Shapes \ { <<2, 2>> } }
+\* required lock times can only be merged when they do not move the transaction's lock time (the unique id): the ancestor's last
+\* input already requires the maximal height (resp. time), a descendant adds a lower one of the same kind on the first input
+LockCases == { [shape |-> <<2, 2>>, anc |-> k[1], descs |-> << << <<"i1", k[2]>> >>, d >>, orders |-> << <<1, 2>>, <<2, 1>> >>]
+               : k \in { <<"hlock", "required_height_locktime">>, <<"tlock", "required_time_locktime">> },
+                 d \in { << >>, << <<"i1", "sequence">> >>, << <<"o2", "redeem_script">> >>, << <<"g", "proprietary">> >> } }
 \* three descendants, two additions each (disjoint or identical), all six orders
 T3 == { AddSeq[i] : i \in { j \in DOMAIN AddSeq : j % 11 = 3 } }
 TripleCases == { [shape |-> <<2, 2>>, descs |-> << <<a, b>>, <<b, c>>, <<c>> >>,
@@ -30,7 +35,7 @@ KsCases == { [a |-> [fp |-> a[1], path |-> a[2]], b |-> [fp |-> b[1], path |-> b
             : a \in KeySources, b \in KeySources }
 GInit == fam = << >> /\ acc = {} /\ merged = {} /\ order = << >>
 GNext == UNCHANGED vars
-ASSUME ndJsonSerialize(IOEnv.OUT, SetToSeq(PairCases \cup ShapeCases \cup TripleCases))
+ASSUME ndJsonSerialize(IOEnv.OUT, SetToSeq(PairCases \cup ShapeCases \cup TripleCases) \o SetToSeq(LockCases))
 ASSUME ndJsonSerialize(IOEnv.OUT_KS, SetToSeq(KsCases))
 ASSUME PrintT(<<"EMITTED", Cardinality(Adds), Cardinality(PairCases) + Cardinality(ShapeCases), Cardinality(TripleCases), Cardinality(KsCases)>>)
 ====
